@@ -392,6 +392,13 @@ def sim_volume(model, grid, tape, safe=False, dt=None, v0=1.0, volspec=None, vol
             ref.n_fired[j] += 1
             fired_in_interval += 1
             ref.events.append((ref.t, "fire", j))
+    # the volume step due at the final time point belongs to the run (taken above unless the loop ended first)
+    while not ref.divided and nqt <= grid[-1]:
+        vm.V += vm.step(ref, nqt, delta)
+        ref.growth_steps += 1
+        if vm.divided(nqt, delta):
+            ref.divided = True
+        nqt += delta
     ref.n_rows = idx
     return ref
 
@@ -479,11 +486,19 @@ def sim_delay_volume(model, grid, tape, safe=False, dt=None, v0=1.0, volspec=Non
                 ref.divided = True
                 break
         elif step == 2:
+            if idx >= n:
+                break       # the last row is written: what is due at this very time stays queued
             out = q.pop()
             for j, c in enumerate(out):
                 if c:
                     rm.apply_column(ref.state, ref.cols[j][1], c)
                     ref.n_delivered[j] += c
                     ref.events.append((ref.t, "deliver", j, c))
+    while not ref.divided and next_vol <= grid[-1]:
+        vm.V += vm.step(ref, next_vol, delta)
+        ref.growth_steps += 1
+        if vm.divided(next_vol, delta):
+            ref.divided = True
+        next_vol += delta
     ref.n_rows = idx
     return ref
